@@ -31,9 +31,9 @@ import (
 	"google.golang.org/grpc/test/bufconn"
 )
 
-// ---- scripted behaviour of one attempt (in arrival order at the server)
+// ---- scripted retryBehaviour of one attempt (in arrival order at the server)
 
-type behaviour struct {
+type retryBehaviour struct {
 	kind    byte   // 'T' trailers-only, 'H' headers then (message+)trailers, 'R' refuse, 'G' goaway, 'N' never answer
 	trigger string // "0" at HEADERS, "1".."9" after that many messages, "E" at END_STREAM
 	code    int
@@ -41,13 +41,13 @@ type behaviour struct {
 }
 
 // parseScript: b1;b2;…  with  T<trig>:<code>[:<xhex,xhex…>] | H<trig>:<code> | R | G | N
-func parseScript(s string) []behaviour {
-	var out []behaviour
+func parseScript(s string) []retryBehaviour {
+	var out []retryBehaviour
 	if s == "-" || s == "" {
 		return out
 	}
 	for _, p := range strings.Split(s, ";") {
-		b := behaviour{kind: p[0]}
+		b := retryBehaviour{kind: p[0]}
 		switch p[0] {
 		case 'T', 'H':
 			q := strings.Split(p[1:], ":")
@@ -59,7 +59,7 @@ func parseScript(s string) []behaviour {
 		case 'R', 'G', 'N':
 			b.trigger = "0"
 		default:
-			panic("bad behaviour " + p)
+			panic("bad retryBehaviour " + p)
 		}
 		out = append(out, b)
 	}
@@ -95,13 +95,13 @@ type rServer struct {
 	conns    []*rConn
 	attempts []*rAttempt
 	events   []string
-	script   []behaviour
+	script   []retryBehaviour
 	input    chan struct{}
 	wg       sync.WaitGroup
-	// defaultOK: behaviour once the script is exhausted
+	// defaultOK: retryBehaviour once the script is exhausted
 }
 
-func newRServer(script []behaviour) *rServer {
+func newRServer(script []retryBehaviour) *rServer {
 	s := &rServer{lis: bufconn.Listen(1 << 20), script: script, input: make(chan struct{}, 1)}
 	s.wg.Add(1)
 	go s.acceptLoop()
@@ -255,14 +255,14 @@ func (rc *rConn) writeMsg(sid uint32, payload []byte) {
 	rc.fr.WriteData(sid, false, b)
 }
 
-func (s *rServer) behaviourOf(a *rAttempt) behaviour {
+func (s *rServer) behaviourOf(a *rAttempt) retryBehaviour {
 	if a.idx <= len(s.script) {
 		return s.script[a.idx-1]
 	}
-	return behaviour{kind: 'H', trigger: "E", code: 0}
+	return retryBehaviour{kind: 'H', trigger: "E", code: 0}
 }
 
-func (b behaviour) due(a *rAttempt) bool {
+func (b retryBehaviour) due(a *rAttempt) bool {
 	switch b.trigger {
 	case "0":
 		return true
@@ -354,14 +354,14 @@ func (s *rServer) close() {
 
 // ---- raw codec
 
-type rawCodec struct{}
+type retryRawCodec struct{}
 
-func (rawCodec) Marshal(v any) ([]byte, error) { return v.([]byte), nil }
-func (rawCodec) Unmarshal(d []byte, v any) error {
+func (retryRawCodec) Marshal(v any) ([]byte, error) { return v.([]byte), nil }
+func (retryRawCodec) Unmarshal(d []byte, v any) error {
 	*(v.(*[]byte)) = append([]byte(nil), d...)
 	return nil
 }
-func (rawCodec) Name() string { return "verifraw" }
+func (retryRawCodec) Name() string { return "verifraw" }
 
 // ---- environment
 
@@ -381,7 +381,7 @@ type retryEnv struct {
 	pending chan string
 }
 
-func newRetryEnv(script []behaviour, serviceConfig string, dopts []grpc.DialOption, kind string, copts []grpc.CallOption) *retryEnv {
+func newRetryEnv(script []retryBehaviour, serviceConfig string, dopts []grpc.DialOption, kind string, copts []grpc.CallOption) *retryEnv {
 	e := &retryEnv{srv: newRServer(script)}
 	d := []grpc.DialOption{
 		grpc.WithTransportCredentials(insecure.NewCredentials()),
@@ -405,7 +405,7 @@ func newRetryEnv(script []behaviour, serviceConfig string, dopts []grpc.DialOpti
 	default:
 		e.desc = &grpc.StreamDesc{ClientStreams: true, ServerStreams: true}
 	}
-	e.opts = append([]grpc.CallOption{grpc.ForceCodec(rawCodec{})}, copts...)
+	e.opts = append([]grpc.CallOption{grpc.ForceCodec(retryRawCodec{})}, copts...)
 	return e
 }
 
